@@ -1,9 +1,10 @@
 (* C10  A Series is a period-indexed map: reads, writes, alignment, trim, isolation.
-   Restatements only; proofs are in proofs/SeriesProofs.v and proofs/SeriesOpsProofs.v.
+   Restatements only; proofs are in proofs/SeriesProofs.v, proofs/SeriesOpsProofs.v, proofs/SeriesWinProofs.v
+   (statistics, moving windows) and proofs/SeriesFillProofs.v (fill_missing).
    Every theorem holds for EVERY scalar carrier A whose missing value is recognisable
    (miss_law), for every series, period, and history of operations. *)
 From Coq Require Import ZArith List Bool.
-From Verif Require Import lib.Arith lib.ArithOptZ model.Series model.SeriesOps proofs.SeriesProofs proofs.SeriesOpsProofs proofs.SeriesWinProofs.
+From Verif Require Import lib.Arith lib.ArithOptZ model.Series model.SeriesOps proofs.SeriesProofs proofs.SeriesOpsProofs proofs.SeriesWinProofs proofs.SeriesFillProofs.
 Import ListNotations.
 Open Scope Z_scope.
 
@@ -159,4 +160,61 @@ Example C10_moving_missing_nonvacuous :
   (forall a b, is_miss OZArith a = true -> is_miss OZArith (div OZArith a b) = true).
 Proof.
   repeat split; intros [x|] [y|]; simpl; intros H; try reflexivity; discriminate.
+Qed.
+
+(* ------------------------------------------------------------------------------------------------
+   fill_missing over a contiguous range a..b of periods: span = None works on the whole series, an explicit
+   span on the given range (proofs/SeriesFillProofs.v).  fill_dates is the list of periods the code works on. *)
+
+(* periods outside the filled range keep their values *)
+Theorem C10_fill_outside_untouched : forall A, lawful A -> forall fr k span (s : series A) a b t, WF A s ->
+  fill_dates A span s = zrange a (b + 1) -> ~ (a <= t <= b) ->
+  row_at A (fill_missing A fr k span s) t = row_at A s t.
+Proof. exact fill_missing_outside. Qed.
+Print Assumptions C10_fill_outside_untouched.
+
+(* constant: missing cells of the range take the constant, observed cells keep their value *)
+Theorem C10_fill_constant_spec : forall A, lawful A -> forall fr span (s : series A) a b, WF A s ->
+  fill_dates A span s = zrange a (b + 1) -> forall v t c, a <= t <= b -> (c < s_nv s)%nat ->
+  cell A (fill_missing A fr (FillConst A v) span s) t c
+  = if is_miss A (cell A s t c) then v else cell A s t c.
+Proof. exact fill_const_spec. Qed.
+Print Assumptions C10_fill_constant_spec.
+
+(* previous: a cell of the range takes the last observed value at or before t inside the range (its own value
+   when it is observed: u = t), and is missing when there is none *)
+Theorem C10_fill_previous_spec : forall A, lawful A -> forall fr span (s : series A) a b, WF A s ->
+  fill_dates A span s = zrange a (b + 1) -> forall t c, a <= t <= b -> (c < s_nv s)%nat ->
+  let r := cell A (fill_missing A fr (FillPrev A) span s) t c in
+  (forall u, a <= u <= t -> is_miss A (cell A s u c) = false ->
+     (forall w, u < w <= t -> is_miss A (cell A s w c) = true) -> r = cell A s u c) /\
+  ((forall u, a <= u <= t -> is_miss A (cell A s u c) = true) -> r = miss A).
+Proof. exact fill_previous_spec. Qed.
+Print Assumptions C10_fill_previous_spec.
+
+(* next: a cell of the range takes the first observed value at or after t inside the range, missing when none *)
+Theorem C10_fill_next_spec : forall A, lawful A -> forall fr span (s : series A) a b, WF A s ->
+  fill_dates A span s = zrange a (b + 1) -> forall t c, a <= t <= b -> (c < s_nv s)%nat ->
+  let r := cell A (fill_missing A fr (FillNext A) span s) t c in
+  (forall u, t <= u <= b -> is_miss A (cell A s u c) = false ->
+     (forall w, t <= w < u -> is_miss A (cell A s w c) = true) -> r = cell A s u c) /\
+  ((forall u, t <= u <= b -> is_miss A (cell A s u c) = true) -> r = miss A).
+Proof. exact fill_next_spec. Qed.
+Print Assumptions C10_fill_next_spec.
+
+(* non-vacuity: the range hypothesis holds for the whole series and for an explicit range, and the three
+   methods give the documented values on a concrete series *)
+Example C10_fill_nonvacuous :
+  (forall (s : series OZArith) st en, s_start s = Some st -> s_end OZArith s = Some en ->
+     fill_dates OZArith None s = zrange st (en + 1)) /\
+  (forall (s : series OZArith) a b, fill_dates OZArith (Some (zrange a (b + 1))) s = zrange a (b + 1)) /\
+  WF OZArith oz_demo /\ fill_dates OZArith None oz_demo = zrange 8000 (8003 + 1) /\
+  cell OZArith (fill_missing OZArith 4 (FillPrev OZArith) None oz_demo) 8002 1 = Some 5 /\
+  cell OZArith (fill_missing OZArith 4 (FillNext OZArith) None oz_demo) 8002 1 = Some 7 /\
+  cell OZArith (fill_missing OZArith 4 (FillConst OZArith (Some 9)) (Some (zrange 8002 (8005 + 1))) oz_demo) 8005 0 = Some 9 /\
+  cell OZArith (fill_missing OZArith 4 (FillPrev OZArith) (Some (zrange 8002 (8002 + 1))) oz_demo) 8002 0 = None.
+Proof.
+  split; [intros s st en Hs He; unfold fill_dates, span_list; now rewrite Hs, He|].
+  split; [reflexivity|]. split; [repeat constructor; simpl; discriminate|].
+  repeat split; reflexivity.
 Qed.
